@@ -218,6 +218,8 @@ def run(ctx, model_ok):
         for op in ("append", "delfiles", "expire", "delsnap", "gc", "append+expire", "delete+append"):
             for n in priors:
                 _one(ctx, rep, op, n, base)
+        from . import c19
+        c19.s3_dead_holder(ctx, rep, "C03:dead-writer-lock-wedges-the-table")
         rep.exhaustive = True
     finally:
         _time.sleep = real_sleep
